@@ -364,7 +364,7 @@ let dispatch (f : Stdlib.String.t list) : Stdlib.String.t =
   | ["spec.dkim_delete_b"; b] -> hex (delete_b (unhex b))
   | ["tls.run"; mode; peer; prm; cr; hello; script; from; tos; msg] ->
       let m = (match mode with "opportunistic" -> TOpportunistic | "required" -> TRequired | "wrapper" -> TWrapper | _ -> TNone) in
-      let pt = (match peer with "good" -> PCert CGood | "wrongname" -> PCert CWrongName | "selfsigned" -> PCert CSelfSigned | "expired" -> PCert CExpired | _ -> PNoTls) in
+      let pt = (match peer with "good" -> PCert CGood | "wrongname" -> PCert CWrongName | "selfsigned" -> PCert CSelfSigned | "expired" -> PCert CExpired | "silent" -> PSilent | _ -> PNoTls) in
       let p = { add_root = prm.[0] = '1'; accept_invalid_certs = prm.[1] = '1'; accept_invalid_hostnames = prm.[2] = '1' } in
       let c = (if cr = "!" then None else (match split ',' cr with
         | [ms; u; pw] -> Some ((mechs_of_string ms, unhex u), unhex pw)
